@@ -21,6 +21,11 @@ Definition par_init (n : nat) : spec :=
    popped, the child it comes from (None: a rest filling the gap left by a child that has ended), the event *)
 Record pout := mkPO { po_time : num; po_key : key; po_src : option nat; po_ev : event }.
 
+(* the rest Ppar inserts when a child has ended and others go on (repaired code): Event.silent(nexttime - now, inevent)
+   with its delta set back to nexttime - now -- the queue times already are in stretched time *)
+Definition par_rest (p : Q) (now : num) (inev : event) : event :=
+  put "delta" (VNum (nsub (F p) now)) (silent (VNum (nsub (F p) now)) inev).
+
 Section ParRun.
 Variables (K : kern) (inev : event).
 
@@ -41,7 +46,7 @@ Fixpoint par_run (fuel : nat) (q : spec) (now : num) (ls : list (list event)) : 
             | [] => []
             | y :: _ =>
                 let p := fst (fst y) in
-                mkPO now (ikey x) None (silent (VNum (nsub (F p) now)) inev)
+                mkPO now (ikey x) None (par_rest p now inev)
                 :: par_run f q1 (F p) (set_nth i [] ls)
             end
         | Some (e0 :: li) =>
@@ -118,6 +123,8 @@ Proof.
 Qed.
 
 (* the stream of a started Ppar is par_run of the children's lists *)
+Hypothesis Hrest : fix_ppar_rest c = true.
+
 Lemma ppar_stream_is_par_run : (0 < dep)%nat -> forall fuel q now cs ls mc,
   Forall2 denotes cs ls ->
   stream_run c K lib fuel (S dep) (SPar true q now cs) inev mc = map po_ev (par_run K inev fuel q now ls).
@@ -132,7 +139,7 @@ Proof.
     try contradiction; [|reflexivity].
   inversion Hn as [s Hs|s e s' l' Hs Hl']; subst.
   - destruct (Hs mc) as [o [rt Ho]]. rewrite Ho.
-    destruct r as [|y r']; [reflexivity|]. cbn [map po_ev]. f_equal.
+    destruct r as [|y r']; [reflexivity|]. rewrite Hrest. cbn [map po_ev]. f_equal.
     apply IH. apply Forall2_set_nth; [exact HF|apply denotes_done; exact Hd].
   - destruct (Hs mc) as [o Ho]. rewrite Ho. cbv zeta. unfold qadd. cbn [spec_step fst snd].
     remember (insert_by ikey (toQ (nadd now (pfloat (vnum (ev_call K (as_event e) "delta")))), n, itask x)
